@@ -3,7 +3,7 @@
 From Coq Require Import List Arith Bool NArith.
 From GV Require Import Base.Result Gen.TokenTypes Gen.Defs Gen.Instr Model.Parser Model.BuilderWL Model.Compile
   Spec.WfCode Spec.Reloc Proofs.C05.Known Proofs.C05.Bounded Proofs.C05.Refuted Proofs.C20.Bounded Proofs.C20.Refuted Proofs.C05.Operands Proofs.C05.Jumps Proofs.C05.Bodies Proofs.C20.Frame Proofs.C20.FrameFull Proofs.C20.Relocate Proofs.C20.LastInstr Proofs.C20.RelocFull.
-From GV Require Import Proofs.C20.Statements.
+From GV Require Import Proofs.C20.Statements Proofs.Builder.Transport.
 Import ListNotations.
 
 (* relocation + frame, bounded: building after another program (initial states
@@ -103,3 +103,27 @@ Theorem C20_relocated_full : forall nodes root t init lit r r0,
   relocated init (code_of_compile r0) (code_of_compile r) = true.
 Proof. exact C20_relocated_full_proof. Qed.
 Print Assumptions C20_relocated_full.
+
+(* ---- directly on BuilderWL.build (by compile_agrees_full, Properties/C05.v) ---- *)
+Theorem C20_frame_full_builder : forall nodes root t init lit fuel r,
+  tree_of nodes root = Some t -> ~ Known_C05_K1 init t -> ~ Known_C05_K2 t ->
+  build nodes init lit fuel root = Ok r -> own_code init (code_of_build r) = true.
+Proof. exact C20_frame_full_builder_proof. Qed.
+Print Assumptions C20_frame_full_builder.
+
+Theorem C20_own_jump_refs_builder : forall nodes root t init lit fuel r,
+  tree_of nodes root = Some t -> build nodes init lit fuel root = Ok r ->
+  forallb (own_ref (i_jump_len init) (i_jump_len init + length (jumps (fst r)))) (instrs (fst r)) = true /\
+  in_range (i_jump_len init) (i_jump_len init + length (jumps (fst r))) (snd r) = true.
+Proof. exact C20_own_jump_refs_builder_proof. Qed.
+Print Assumptions C20_own_jump_refs_builder.
+
+(* relocation: a build into a data object that already holds a program and the
+   build of the same tree into the empty object (any fuel for either) are
+   related by Spec.Reloc.relocated *)
+Theorem C20_relocated_full_builder : forall nodes root t init lit fuel fuel0 r r0,
+  tree_of nodes root = Some t -> ~ Known_C05_K1 init t -> ~ Known_C05_K2 t ->
+  build nodes init lit fuel root = Ok r -> build nodes empty_init lit fuel0 root = Ok r0 ->
+  relocated init (code_of_build r0) (code_of_build r) = true.
+Proof. exact C20_relocated_full_builder_proof. Qed.
+Print Assumptions C20_relocated_full_builder.
